@@ -24,7 +24,12 @@ R1.8  the line break that opens a part body is skipped once per part: on every p
       decoder leaves the protocol states in which the splitter skips;
 R1.9  the form parser collects the payload of every Data event as received and joins the
       collected pieces with nothing in between (no per-piece decode / strip / replace / slice:
-      the pieces are cut wherever the read buffer ends).
+      the pieces are cut wherever the read buffer ends);
+R1.10 the hold-back position is never after the place where a delimiter that is not complete yet can begin (the
+      start of the last line break of the scanned region), whatever the order and adjacency of the last CR and LF;
+R1.11 because the delimiter patterns accept a line break that is not complete (a bare CR in front of the LF that
+      arrives with the next chunk), the stage that follows a delimiter gives the same part headers with and without
+      the rest of that line break in front of the header block.
 """
 
 from __future__ import annotations
@@ -41,11 +46,12 @@ from ..loader import AnalysisError, AnchorMissing, ClassInfo, FuncInfo, dotted, 
 from ..report import Ctx
 from ._c01_helpers import (
     EV_START, PLACEHOLDER, RD_EMPTY, ReadFlow, SAMPLE_N, Aff, AffEval, EvFact, EventFlow, FieldFlow, Lang, Lin, NotAffine, PathExec, Roles, SearchSite, Typestate, fit, fmt_off,
-    anchor_summary, attr_copies, attr_of, bind_args, self_call_closure, state_test_parts, strip_max0, windowed_searches,
+    MiniEval, SelfRef, _PyRaise, _Unmodelled,
+    anchor_summary, anchor_table, attr_copies, attr_of, bind_args, delimiter_start, line_break_words, self_call_closure, state_test_parts, strip_max0, windowed_searches,
 )
 
 LEVEL_TEXT = (
-    "Static decision of nine structural clauses of C01 on /repo's current source, with the boundary symbolic (any length >= 1) "
+    "Static decision of eleven structural clauses of C01 on /repo's current source, with the boundary symbolic (any length >= 1) "
     "and delimiters without trailing blanks: (R1.1) wherever MultipartDecoder.next_event searches the buffer from a saved "
     "offset, every window `len(buffer) - K` that can reach that search has K >= the longest proper prefix of a word of the "
     "pattern searched there in which the pattern does not match yet (what a failed search can leave at the end of the buffer), "
@@ -64,8 +70,10 @@ LEVEL_TEXT = (
     "path to its end yields None last (reads are calls through a parameter, also as the callable of iter(callable, b'')); "
     "(R1.4) in _parse_data every release of the whole buffer without a delimiter is guarded by `pending tail > T` with T >= "
     "the longest incomplete prefix of the delimiter language (folded from boundary_re) that is consistent with what the "
-    "branch knows about the buffer; (R1.5) the position that guard measures from, read off the shape of the anchor helper "
-    "(min/max of last-index-of-byte terms), is not before the last line-break byte; (R1.6) the hold-back scan starts no "
+    "branch knows about the buffer; (R1.5) the position that guard measures from is not before the place where the last line break of the scanned region begins: the anchor helper "
+    "(method, static method or module function of one argument) is evaluated from its source on every argument of up to 6 bytes over CR, LF, the bytes it names and one byte that stands for "
+    "every other byte - constants are propagated through its statements with a closed set of pure operations on bytes, integers and lists, private helpers followed - so the verdict does not "
+    "depend on how it is written (rindex + except, rfind, rpartition, slices and byte tests, index arithmetic, backward scans, loops over the line-break bytes, min/max or comparisons by hand); (R1.6) the hold-back scan starts no "
     "later than the delimiter search; (R1.7) on every return of _parse_data that continues the part (deleted prefix = hold-back position or whole "
     "buffer) `deleted prefix - payload start` has a lower bound >= 0 as an affine expression over len(buffer) >= match positions >= 0, "
     "anchor results >= 0 (or >= -1 for an rfind-style anchor) and len(boundary) >= 1, so the line break skipped in front of a part body never "
@@ -75,7 +83,14 @@ LEVEL_TEXT = (
     "the path; `while` loops unrolled up to a bound): on a path where the splitter call skipped a line break in front of the payload, either a prefix "
     "is deleted from the buffer afterwards and next_event ends in a state in which the splitter does not skip, or nothing is deleted and it ends in a state "
     "in which it skips - otherwise the next call skips a second line break (the payload's own) or reads the skipped one again as payload; whether a call "
-    "skips must be decided by the protocol state (a skip that hangs on another flag stops with ANALYSIS-ERROR); (R1.9) in MultiPartParser.parse and the "
+    "skips must be decided by the protocol state (a skip that hangs on another flag stops with ANALYSIS-ERROR); (R1.10) for every hold-back position `anchor(region) + start of region` that _parse_data releases the buffer up to, "
+    "and every region of that table, the anchor's answer is at or before the start of the longest suffix of the region that is a line break of the delimiter's line-break class (the beginnings of the words of boundary_re: CR LF, LF, CR) "
+    "followed by bytes that are not line breaks, or a proper beginning of such a line break at the very end - the place where a delimiter whose rest has not arrived can begin - and nothing is added to the position beyond the start of the region; "
+    "an anchor that overlooks a CR not followed by LF, the CR of a CR LF pair, or one of the line-break bytes fails for the order types concerned; (R1.11) premise, decided on the delimiter patterns compiled in __init__: two complete matches w and w + r "
+    "of a delimiter that opens a part exist (the line-break alternatives CR and CR LF), so a chunk that ends after w makes the match end there and r arrives in front of the part headers; obligation: the expression that turns the head of the buffer "
+    "into an argument of a part-opening event (an event class without a bytes field; found by following the constructor argument back through plain local assignments and helper parameters to the prefix slice of the buffer) is evaluated in the same way "
+    "on representative header blocks (one and two headers, CR LF and bare LF line ends, a folded header) with and without r in front, and must give the same value (equal header lists; an opaque container is compared by its constructor arguments and the calls made on it): "
+    "empty lines have to be skipped, however that is written (test on the stripped line, `continue`, filter in a comprehension or generator helper, truth of `line.strip()`); when the value differs and the buffer is modified on a path to that expression, it stops with ANALYSIS-ERROR; (R1.9) in MultiPartParser.parse and the "
     "helpers it hands the decoder, the event or the payload to, every read of the bytes payload of the event class that carries the `more data` flag is "
     "followed (locals, bytes()/memoryview() copies, casts, byte-wise maps, conditional expressions, helper parameters, a collecting callable held in a "
     "local or passed as an argument) to where it is collected (append / write / extend / `+=` / stored): no method of the payload (decode, strip, replace, "
@@ -94,8 +109,8 @@ LEVEL_TEXT = (
     "reached in; a site whose guards say nothing about that state stands for every state that has no site of its own (one hold-back computation serving both), and is an instance of its own (`any buffer`) when each state already has one. R1.4-R1.7 report a violation only when every condition guarding the release is one "
     "they model (boundary-text presence tests, the start flag, match tests, the threshold) and otherwise stop with "
     "ANALYSIS-ERROR. It decides these clauses on all paths. It does NOT decide the equality of event streams itself: "
-    "that the hold-back position is the right cut for every mixture of CR and LF in the payload beyond R1.5/R1.6, the "
-    "consumption of the line break that opens a part body beyond R1.6-R1.8 (e.g. what the line-break pattern itself matches), header parsing, the size limits, "
+    "that the hold-back position is the right cut for payloads whose last line breaks are further apart than the regions of the R1.5/R1.10 table (a helper with a numeric threshold is not modelled), the "
+    "consumption of the line break that opens a part body beyond R1.6-R1.8 (e.g. what the line-break pattern itself matches), header parsing beyond R1.11 (names, values, folding, character sets), the size limits, "
     "and anything else the form parser computes per Data event (R1.9 follows the payload bytes only: a value derived from the number of events, what a "
     "stream_factory container does with its writes, and the final decode of the joined value are not examined) are out of scope."
 )
@@ -104,9 +119,11 @@ TRUSTED = [
     "re semantics: Pattern.search(buf, pos) finds the leftmost match starting at or after pos; a negative pos is clamped to 0",
     "bytes.rindex(c) is the last index of c and raises ValueError when absent; bytes.rfind(c) is the same index or -1 when absent; bytes.find returns -1 when absent",
     "the re engine run on a pattern folded from the source against prefixes enumerated from that same pattern",
+    "CPython semantics of the pure operations the table evaluation (R1.5, R1.10, R1.11) applies to constants: bytes / str rfind, rindex, find, rpartition, partition, split, splitlines, strip, decode, startswith, endswith, slices and indexing, comparisons, len / min / max / range, list append / extend; Pattern.sub / search of a module-level pattern folded from the source applied to a sample header block",
 ]
 ASSUMPTIONS = [
-    "the hold-back anchor helper (a method, static method or module function) is summarised extensionally: its CFG is walked once per order type of its argument (which line-break bytes occur and in which order their last occurrences come) over the values {-1, last index of a byte, len(argument)}, interpreting only order comparisons, min/max, selection, loops and comprehensions over a literal collection of bytes, lists built by append, and `byte in argument`; the results must equal min/max over `last index of c, or len / -1 when c is absent` terms (rindex + except ValueError, rfind + test for -1, conditional expressions, walrus, comparing two positions by hand, a running minimum in a loop are all read this way); anything else (arithmetic, slices, lookups with a start offset) stops R1.5-R1.7 with ANALYSIS-ERROR",
+    "R1.5/R1.10: the hold-back anchor helper is decided on a table, not for every argument: all arguments of up to 6 bytes (5 when it names a further byte) over CR, LF, the bytes it names and one filler byte; its statements are evaluated with constants propagated through assignments, tests, loops, try/except, comprehensions and a closed set of pure builtins and bytes / list methods, private helpers of the package followed up to four levels; a construct outside that subset, an integer constant other than -2..2 and the codes of CR / LF (a possible length threshold the table does not reach), or a result outside -1 .. len(argument) stops R1.5-R1.7 and R1.10 with ANALYSIS-ERROR; the argument is taken as bytes (the decoder passes a bytearray slice, which answers the same operations); the closed form min/max of last-index terms is still derived (per order type of the last occurrences) where the helper has one, for the wording of the evidence only",
+    "R1.11: the header stage is evaluated on sample header blocks of the property's domain, with the same evaluator; a class of the package that is only constructed and filled (Headers) is opaque: compared by constructor arguments and recorded method calls; the rest of a line break is assumed to be dealt with in that stage - a decoder that removes it from the buffer beforehand is not modelled (ANALYSIS-ERROR when the buffer is modified on a path to the stage, silent otherwise only if the stage itself is indifferent to it)",
     "R1.3: the set of event classes is the subclasses (in the decoder's module) of the class named by next_event's return annotation; NeedData and Epilogue are the terminal ones (after them next_event produces nothing until more data arrives / ever); `event is NEED_DATA` is read as: an event of another class is not that constant, a NeedData event may or may not be; attributes of an event that are declared by an annotation are instance data and do not depend on its class",
     "R1.3: a use of the value of next_event() that is not followed (stored in an attribute or container, passed to code outside the package, a generator over the decoder driven by hand, the bound method handed to something other than iter(callable, CONSTANT)) makes the paths through it undecided: ANALYSIS-ERROR if such a path can leave the decoder undrained, never a violation",
     "delimiters carry no trailing blanks (the unbounded run [^\\S\\n\\r]* is taken as empty), as in the property's domain",
@@ -131,6 +148,8 @@ RULES = {
     "R1.7": "when no delimiter was found, the prefix deleted from the buffer reaches at least to the start of the returned payload",
     "R1.8": "the line break that opens a part body is skipped once per part: a call of next_event that skips it deletes it from the buffer if and only if it leaves the protocol states that skip",
     "R1.9": "the form parser collects every Data payload as received and joins the collected pieces with nothing in between: no per-chunk transformation whose result depends on where the payload was cut",
+    "R1.10": "the hold-back position is never after the place where a delimiter that is not complete yet can begin: at or before the start of the last line break of the scanned region, for every order and adjacency of the last line-break bytes",
+    "R1.11": "a line-break byte that a delimiter match leaves in the buffer (because the chunk ended inside the line break that ends the delimiter line) does not show in the part headers",
 }
 
 
@@ -988,7 +1007,7 @@ class Splitter:
     # -- one-expression helpers are read at the call site ---------------------------------------------------------------
     def _inlinable(self, c: ast.AST) -> tuple[FuncInfo, ast.AST, dict[str, ast.AST]] | None:
         callee = self._anchor_call(c)
-        if callee is None or callee is self.fi or anchor_summary(callee) is not None:
+        if callee is None or callee is self.fi or anchor_table(callee) is not None or anchor_summary(callee) is not None:
             return None
         body = [st for st in callee.node.body if not (isinstance(st, ast.Expr) and isinstance(st.value, ast.Constant))]  # type: ignore[attr-defined]
         if len(body) != 1 or not isinstance(body[0], ast.Return) or body[0].value is None:
@@ -1324,10 +1343,10 @@ class Splitter:
                     neg_index += -k
             elif sym.startswith("op:"):
                 afi = self._anchor_call(ev.opaque.get(sym))  # type: ignore[arg-type]
-                summ = anchor_summary(afi) if afi is not None else None
-                if summ is None or k < 0:
+                tab = anchor_table(afi) if afi is not None else None
+                if tab is None or k < 0:
                     raise NotAffine(f"`{sym[3:]}` has no modelled bound")
-                lb += k * (0 if all(kind == "end" for kind, _ in summ[1]) else -1)
+                lb += k * tab.lower  # 0, or -1 for an anchor that answers -1 when there is no line break
             else:
                 raise NotAffine(f"symbol {sym}")
         if neg_index > diff.coef.get("D", 0):
@@ -1352,6 +1371,16 @@ class Splitter:
 
 
 BRANCH = {"present": "boundary text present", "absent": "boundary text absent"}
+
+
+def describe_anchor(afi: FuncInfo, tab) -> str:
+    """what the anchor helper computes, in words: the closed form when it has one, else how it was evaluated"""
+    summ = anchor_summary(afi)
+    if summ is not None:
+        comb, terms = summ
+        return f"{afi.qualname} returns {comb}(" + ", ".join(f"last {bytes([b_])!r} or {'len' if k_ == 'end' else '-1'}" for k_, b_ in terms) + ")"
+    return (f"{afi.qualname} was evaluated on all {len(tab.results)} arguments of up to {max(len(s_) for s_ in tab.results)} bytes over "
+            f"{[bytes([b_]) for b_ in tab.letters if b_ != tab.filler]} and one other byte")
 
 
 class Branches:
@@ -1382,6 +1411,7 @@ def rules_splitter(ctx: Ctx, roles: Roles, pats: Patterns, folder: Folder) -> Sp
     ctx.floor("R1.4", "whole-buffer releases without a delimiter", len(sp.sites), 1)
     ctx.floor("R1.6", "hold-back release positions", len(sp.holds), 1)
     first_bytes = set().union(*[l.first_bytes() for l in sp.langs])
+    lbw = set().union(*[line_break_words(l) for l in sp.langs])  # the line breaks a delimiter can begin with
 
     br15 = Branches(sp.guard_kinds(st_["node"], st_.get("extra", ()))["fact"] for st_ in sp.sites.values())
     for nid, site in sorted(sp.sites.items(), key=lambda kv: kv[1]["node"].lineno):
@@ -1422,30 +1452,24 @@ def rules_splitter(ctx: Ctx, roles: Roles, pats: Patterns, folder: Folder) -> Sp
             for anc in best["anchors"]:
                 afi: FuncInfo = anc["anchor"]
                 ctx.saw(afi)
-                summ = anchor_summary(afi)
-                if summ is None:
-                    raise AnalysisError(f"{afi.loc()}: hold-back anchor `{afi.qualname}` has a shape that is not modelled (expected min/max of last-index-of-byte terms)")
-                comb, terms = summ
-                bytes_ = sorted({b for _, b in terms})
-                if not first_bytes <= set(bytes_):
-                    raise AnalysisError(f"{afi.loc()}: `{afi.qualname}` ignores line-break byte(s) {sorted(first_bytes - set(bytes_))}: not modelled")
-                if comb in ("min",) and len(bytes_) >= 2 and all(k_ == "end" for k_, _ in terms):
-                    under = True
-                elif comb == "max" and all(k_ == "-1" for k_, _ in terms):
-                    under = False
-                elif len(bytes_) == 1:
-                    under = False
-                else:
-                    raise AnalysisError(f"{afi.loc()}: `{afi.qualname}` combines last-index terms with `{comb}` and fallbacks {sorted({k_ for k_, _ in terms})}: not modelled")
+                tab = anchor_table(afi)
+                if tab is None:
+                    raise AnalysisError(f"{afi.loc()}: hold-back anchor `{afi.qualname}` has a shape that is not modelled (expected a pure function of its one argument: last-index lookups, "
+                                        f"slices, byte tests, index arithmetic, loops; result -1 .. len(argument))")
+                if not first_bytes <= set(tab.letters):
+                    raise AnalysisError(f"{afi.loc()}: line-break byte(s) {sorted(first_bytes - set(tab.letters))} of `{rx_txt}` are outside the table `{afi.qualname}` is evaluated on: not modelled")
+                early = sorted(((s_, r_, delimiter_start(s_, lbw, first_bytes)) for s_, r_ in tab.results.items()), key=lambda x: (len(x[0]), x[0]))
+                early = [(s_, r_, q_) for s_, r_, q_ in early if q_ < len(s_) and r_ < q_]
+                under = bool(early)
                 if under and unknown:
                     raise AnalysisError(f"{fi.loc(site['stmt'])}: early release is guarded by conditions that are not modelled: {unknown}")
-                a, b = bytes([bytes_[0]]), bytes([bytes_[-1]])
                 for br in names15:
                     ctx.ob("R1.5", f"{fi.qualname}: the early-release guard measures the pending tail from the last line break", not under,
-                           f"`{norm(best['test'])}` measures from `{best['var']}` = `{norm(anc['call'])}`; {afi.qualname} returns {comb}("
-                           + ", ".join(f"last {bytes([b_])!r} or {'len' if k_ == 'end' else '-1'}" for k_, b_ in terms) + ")"
-                           + (f": when two different line-break bytes are more than T bytes apart the earlier one is taken, the tail looks long and the whole buffer is released although it ends with a byte that may start the delimiter "
-                              f"(e.g. payload {a!r} + more than T other bytes, then a CR LF delimiter whose CR ends one chunk and whose LF starts the next: the CR is emitted as payload)" if under else ": not before the last line-break byte"),
+                           f"`{norm(best['test'])}` measures from `{best['var']}` = `{norm(anc['call'])}`; {describe_anchor(afi, tab)}"
+                           + (f": for the argument {early[0][0]!r} it answers {early[0][1]} although the last line break begins at {early[0][2]}; when two different line-break bytes are more than T bytes apart the earlier one is taken, "
+                              f"the tail looks long and the whole buffer is released although it ends with a byte that may start the delimiter "
+                              f"(e.g. payload with a line break + more than T other bytes, then a CR LF delimiter whose CR ends one chunk and whose LF starts the next: the CR is emitted as payload)" if under
+                              else ": for every argument with a line break the answer is not before the place where the last line break begins"),
                            fi, best["test"], f"early-release anchor ({br})")
 
     # R1.6: region of the hold-back scan vs region of the delimiter search
@@ -1458,6 +1482,7 @@ def rules_splitter(ctx: Ctx, roles: Roles, pats: Patterns, folder: Folder) -> Sp
     if not dstarts or any(d is not None and not (isinstance(d, ast.Constant) and d.value == 0) for d in dstarts):
         raise AnalysisError(f"{fi.qualname}: delimiter search `{rx_txt}.search(...)` does not start at the beginning of the buffer: not modelled")
     br16 = Branches(sp.guard_kinds(h_["node"], h_.get("extra", ()))["fact"] for h_ in sp.holds.values())
+    br110 = Branches(sp.guard_kinds(h_["node"], h_.get("extra", ()))["fact"] for h_ in sp.holds.values())
     for nid, h in sorted(sp.holds.items(), key=lambda kv: kv[1]["node"].lineno):
         call: ast.Call = h["call"]
         node = h["node"]
@@ -1518,8 +1543,8 @@ def rules_splitter(ctx: Ctx, roles: Roles, pats: Patterns, folder: Folder) -> Sp
             raise AnalysisError(f"{fi.loc(call)}: hold-back anchor is not computed on the buffer or a tail slice of it: `{norm(call)}`")
         late = [(txt, st, dn) for txt, st, dn in lows if txt != "0"]
         if late:
-            summ = anchor_summary(h["anchor"])
-            if summ is None or not all(k_ == "end" for k_, _ in summ[1]):
+            tab6 = anchor_table(h["anchor"])
+            if tab6 is None or not tab6.end_when_no_break(first_bytes):
                 raise AnalysisError(f"{fi.loc(call)}: hold-back scan starts late and `{h['anchor'].qualname}` has a shape that is not modelled: cannot decide what is released when the scanned region has no line break")
             unknown = list(call_unknown) + sp.guard_kinds(node, h.get("extra", ()))["unknown"]
             for _, _, dn in late:
@@ -1534,7 +1559,41 @@ def rules_splitter(ctx: Ctx, roles: Roles, pats: Patterns, folder: Folder) -> Sp
                    + (f": a delimiter that begins in the skipped prefix is found once complete (payload ends before it) but is not held back while incomplete ({h['anchor'].qualname} answers `end of region` when the region has no line break) "
                       f"(e.g. buffer = line break + first bytes of `--boundary` right after the headers of a body-less part: those bytes are released as payload)" if late else ""),
                    fi, call, f"hold-back scan region ({br})")
-
+        # R1.10: where the anchor cuts the scanned region
+        afi10: FuncInfo = h["anchor"]
+        tab = anchor_table(afi10)
+        if tab is None:
+            raise AnalysisError(f"{afi10.loc()}: hold-back anchor `{afi10.qualname}` has a shape that is not modelled (expected a pure function of its one argument: last-index lookups, "
+                                f"slices, byte tests, index arithmetic, loops; result -1 .. len(argument))")
+        if not first_bytes <= set(tab.letters):
+            raise AnalysisError(f"{afi10.loc()}: line-break byte(s) {sorted(first_bytes - set(tab.letters))} of `{rx_txt}` are outside the table `{afi10.qualname}` is evaluated on: not modelled")
+        late10 = sorted(((s_, r_, delimiter_start(s_, lbw, first_bytes)) for s_, r_ in tab.results.items() if r_ > delimiter_start(s_, lbw, first_bytes)), key=lambda x: (len(x[0]), x[0]))
+        # the position that is released = anchor(region) + start of the region (+ what else is added)
+        shift = 0
+        ev = sp.ev_open
+        ev.opaque = {}
+        try:
+            a_pos = ev.aff(h["value"], node)
+            syms = [s_ for s_ in a_pos.coef if s_.startswith("op:") and sp._anchor_call(ev.opaque.get(s_)) is afi10]  # type: ignore[arg-type]
+            a_lo = ev.aff(lo, node) if lo is not None else Aff()
+            rest = a_pos - a_lo
+            if len(syms) == 1 and rest.coef == {syms[0]: 1}:
+                shift = rest.const
+        except NotAffine:
+            pass
+        ok10 = not late10 and shift <= 0
+        unknown10 = list(call_unknown) + g["unknown"]
+        if not ok10 and unknown10:
+            raise AnalysisError(f"{fi.loc(call)}: a hold-back position that may lie after the start of an incomplete delimiter is guarded by conditions that are not modelled: {unknown10}")
+        for br in br110.of(g["fact"]):
+            ctx.ob("R1.10", f"{fi.qualname}: the hold-back position is not after the place where an incomplete delimiter can begin", ok10,
+                   f"`{norm(h['value'])}` releases the buffer up to `{norm(call)}`" + (f" + {shift}" if shift > 0 else "") + f"; {describe_anchor(afi10, tab)}; line breaks a `{rx_txt}` match can begin with: {sorted(lbw)}"
+                   + (f": for the region {late10[0][0]!r} it answers {late10[0][1]}, but the last line break (the possible beginning of a delimiter whose rest has not arrived) begins at {late10[0][2]}: the bytes in between are emitted as payload "
+                      f"(e.g. a chunk that ends between the CR and the LF in front of a delimiter: the CR is appended to the payload and the LF that follows is taken for a bare-LF delimiter; "
+                      f"{len(late10)} of {len(tab.results)} evaluated regions)" if late10
+                      else f": the position is {shift} byte(s) after what the anchor answers" if shift > 0
+                      else f": for every one of the {len(tab.results)} evaluated regions the answer is at or before the place where the last line break begins"),
+                   fi, call, f"hold-back position ({br})")
 
     # R1.7: what is skipped in front of the payload is deleted with it
     n17 = 0
@@ -1700,6 +1759,206 @@ def rules_fields(ctx: Ctx, flow: EventFlow, owners: list[tuple[FuncInfo, str]]) 
 
 
 # ---------------------------------------------------------------------------
+# R1.11: what a delimiter match leaves of a line break must not show in the part headers
+
+
+# representative header blocks of the property's domain (CRLF / bare-LF line ends, a file part, a folded header)
+HEADER_BLOCKS = (
+    b'Content-Disposition: form-data; name="a"',
+    b'Content-Disposition: form-data; name="f"; filename="x.txt"\r\nContent-Type: text/plain',
+    b'Content-Disposition: form-data; name="f"; filename="x.txt"\nContent-Type: text/plain',
+    b'Content-Disposition: form-data;\r\n name="a"\r\nX-Extra: 1',
+)
+BLOCK = "__block__"
+
+
+def left_over_by_delimiters(pats: Patterns) -> dict[bytes, tuple[str, bytes, bytes]]:
+    """premise of R1.11, decided on the delimiter patterns: bytes r such that both w and w + r are complete matches of a delimiter
+    that opens a part (not the closing `--boundary--`).  When a chunk ends after w the search succeeds at once, the match ends
+    there, and r - the rest of the line break that ends the delimiter line - arrives as the first bytes of the next stage."""
+    out: dict[bytes, tuple[str, bytes, bytes]] = {}
+    b = pats.boundary(0)
+    for attr in sorted(pats.compiles):
+        if not any(isinstance(x, ast.Name) and x.id == pats.param for x in ast.walk(pats.compiles[attr])):
+            continue  # a pattern that does not depend on the boundary is not a delimiter pattern
+        lang = pats.langs(pats.init, ast.parse(f"self.{attr}", mode="eval").body)[0]
+        if any(b not in w for w in lang.words):
+            raise AnalysisError(f"{pats.init.loc()}: a word of `self.{attr}` does not contain the boundary: not modelled as a delimiter pattern")
+        opening = [w for w in sorted(lang.words) if not w[w.find(b) + len(b):].startswith(b"--")]
+        for w1 in opening:
+            for w2 in opening:
+                if len(w2) > len(w1) and w2.startswith(w1):
+                    out.setdefault(w2[len(w1):], (f"self.{attr}", w1, w2))
+    return out
+
+
+def header_stages(repo, roles: Roles, ts: Typestate) -> list[dict[str, t.Any]]:
+    """the expressions that turn a prefix of the receive buffer into an argument of an event that opens a part (an event class
+    without a bytes field): found by role - the constructor argument is followed back through plain local assignments, and through
+    a parameter to the argument of the one call of the helper, until the buffer slice shows; the slice is replaced by the
+    placeholder BLOCK"""
+    flow = EventFlow(repo, roles.cls)
+    opening = set()
+    for name in flow.universe:
+        c = flow.module.classes[name]
+        fields = [st for st in c.node.body if isinstance(st, ast.AnnAssign)]
+        if name != flow.base.name and fields and not any(norm(st.annotation) in ("bytes", "bytearray") for st in fields):
+            opening.add(name)
+    # the decoder's methods reached from next_event, and the functions of the module they call
+    funcs = list(roles.funcs)
+    for fi in list(funcs):
+        for c in walk_no_nested(fi.node):
+            if isinstance(c, ast.Call):
+                callee = ts._callee(fi, c)
+                if callee is not None and callee.module is fi.module and all(callee is not f for f in funcs):
+                    funcs.append(callee)
+    rds: dict[str, ReachingDefs] = {}
+
+    def rd_of(fi: FuncInfo) -> ReachingDefs:
+        if fi.qualname not in rds:
+            rds[fi.qualname] = ReachingDefs(cfg_of(fi), fi.params)
+        return rds[fi.qualname]
+
+    def callers(fi: FuncInfo) -> list[tuple[FuncInfo, ast.Call]]:
+        return [(g, c) for g in funcs for c in walk_no_nested(g.node) if isinstance(c, ast.Call) and g is not fi and ts._callee(g, c) is fi]
+
+    def is_buffer_slice(x: ast.AST, fi: FuncInfo) -> bool:
+        return isinstance(x, ast.Subscript) and isinstance(x.slice, ast.Slice) and attr_of(x.value, fi) == roles.buffer
+
+    out: dict[str, dict[str, t.Any]] = {}
+    for fi0 in funcs:
+        cfg0 = cfg_of(fi0)
+        for c in walk_no_nested(fi0.node):
+            if not (isinstance(c, ast.Call) and isinstance(c.func, ast.Name) and c.func.id in opening and c.func.id in fi0.module.classes):
+                continue
+            at0 = cfg0.node_of(c)
+            if at0 is None:
+                continue
+            for a in list(c.args) + [k.value for k in c.keywords]:
+                found: list[tuple[ast.Subscript, FuncInfo, Node]] = []  # buffer slices met on the way: original node, function, node it is read at
+
+                def walk(x: ast.AST, fi: FuncInfo, at: Node, d: int) -> ast.AST:
+                    """a fresh copy of x with locals replaced by the one plain assignment that reaches them"""
+                    if is_buffer_slice(x, fi):
+                        found.append((x, fi, at))  # type: ignore[arg-type]
+                        return ast.Name(id=BLOCK, ctx=ast.Load())
+                    if isinstance(x, ast.Name) and isinstance(x.ctx, ast.Load) and d < 6:
+                        defs = rd_of(fi).reaching(at, x.id)
+                        dd = next(iter(defs)) if len(defs) == 1 else None
+                        if dd is not None and dd.kind == "assign" and dd.index is None and dd.value is not None and dd.node is not None:
+                            return walk(dd.value, fi, dd.node, d + 1)
+                        if dd is not None and dd.kind == "param" and x.id in fi.params and x.id not in ("self", "cls"):
+                            sites = callers(fi)
+                            binding = bind_args(fi, sites[0][1]) if len(sites) == 1 else None
+                            g = sites[0][0] if sites else None
+                            gat = cfg_of(g).node_of(sites[0][1]) if g is not None else None
+                            if binding is not None and x.id in binding and g is not None and gat is not None:
+                                return walk(binding[x.id], g, gat, d + 1)
+                    if isinstance(x, ast.Name):
+                        return ast.Name(id=x.id, ctx=ast.Load())
+                    new = x.__class__()
+                    for f_, v_ in ast.iter_fields(x):
+                        if isinstance(v_, ast.AST):
+                            setattr(new, f_, walk(v_, fi, at, d))
+                        elif isinstance(v_, list):
+                            setattr(new, f_, [walk(i_, fi, at, d) if isinstance(i_, ast.AST) else i_ for i_ in v_])
+                        else:
+                            setattr(new, f_, v_)
+                    return new
+
+                e2 = ast.fix_missing_locations(ast.copy_location(walk(a, fi0, at0, 0), a))
+                if not found:
+                    continue
+                sl = found[0][0].slice
+                if len(found) != 1 or sl.step is not None or sl.upper is None or not (sl.lower is None or (isinstance(sl.lower, ast.Constant) and sl.lower.value == 0)):  # type: ignore[union-attr]
+                    raise AnalysisError(f"{fi0.loc(a)}: `{norm(a)}` of `{norm(c.func)}(...)` is computed from `{norm(found[0][0])}`, which is not one prefix of the receive buffer: not modelled")
+                out.setdefault(norm(e2), {"fi": found[0][1], "expr": e2, "node": found[0][2], "arg": found[0][0], "ctors": set()})["ctors"].add(c.func.id)
+    if not out:
+        # the constructor is not called by name (class chosen into a local, ...): fall back on the other end of the stage - a function
+        # of the package that is handed a prefix of the buffer up to a position
+        for fi0 in funcs:
+            cfg0 = cfg_of(fi0)
+            for c in walk_no_nested(fi0.node):
+                at0 = cfg0.node_of(c) if isinstance(c, ast.Call) else None
+                if at0 is None or ts._callee(fi0, c) is None:  # type: ignore[arg-type]
+                    continue
+                hits = [x for a in list(c.args) + [k.value for k in c.keywords] for x in ast.walk(a)  # type: ignore[union-attr]
+                        if is_buffer_slice(x, fi0) and x.slice.step is None and x.slice.upper is not None  # type: ignore[attr-defined]
+                        and (x.slice.lower is None or (isinstance(x.slice.lower, ast.Constant) and x.slice.lower.value == 0))]  # type: ignore[attr-defined]
+                if len(hits) != 1:
+                    continue
+
+                def copy(x: ast.AST) -> ast.AST:
+                    if x is hits[0]:
+                        return ast.Name(id=BLOCK, ctx=ast.Load())
+                    new = x.__class__()
+                    for f_, v_ in ast.iter_fields(x):
+                        setattr(new, f_, copy(v_) if isinstance(v_, ast.AST) else [copy(i_) if isinstance(i_, ast.AST) else i_ for i_ in v_] if isinstance(v_, list) else v_)
+                    return new
+
+                e2 = ast.fix_missing_locations(ast.copy_location(copy(c), c))
+                out.setdefault(norm(e2), {"fi": fi0, "expr": e2, "node": at0, "arg": hits[0], "ctors": set()})["ctors"].add("part-opening event")
+    return list(out.values())
+
+
+def rules_residue(ctx: Ctx, roles: Roles, pats: Patterns, folder: Folder) -> None:
+    repo = ctx.repo
+    left = left_over_by_delimiters(pats)
+    if not left:
+        ctx.ob("R1.11", f"{roles.cls.name}: no delimiter match can end inside the line break that ends the delimiter line", True,
+               f"no complete match of {sorted('self.' + a for a in pats.compiles)} that opens a part is a proper beginning of another one: nothing is left over for the next stage",
+               pats.init, pats.init.node, "line-break rest after a delimiter")
+        return
+    ts = Typestate(repo, roles, lambda *a, **k: None)
+    stages = header_stages(repo, roles, ts)
+    ctx.floor("R1.11", "expressions that turn the head of the buffer into the headers of a part-opening event", len(stages), 1)
+    me = MiniEval(repo, folder)
+
+    def run(st: dict[str, t.Any], block: bytes) -> t.Any:
+        me.steps = 0
+        try:
+            return me.ev(st["expr"], {"self": SelfRef(roles.cls), BLOCK: block}, st["fi"], 0)
+        except _PyRaise as r:
+            return ("raises", r.names[0])
+        except _Unmodelled as e:
+            raise AnalysisError(f"{st['fi'].loc(st['arg'])}: cannot evaluate `{norm(st['expr'])}` on a sample header block ({e}): not modelled")
+
+    for st in stages:
+        fi = st["fi"]
+        ctx.saw(fi)
+        diffs = []
+        n = 0
+        for r, (rx, w1, w2) in sorted(left.items()):
+            for h in HEADER_BLOCKS:
+                v0, v1 = run(st, h), run(st, r + h)
+                if isinstance(v0, tuple) and v0[:1] == ("raises",):
+                    raise AnalysisError(f"{fi.loc(st['arg'])}: `{norm(st['expr'])}` raises {v0[1]} on the well-formed header block {h!r}: not modelled")
+                n += 1
+                if not (v0 == v1):
+                    diffs.append((r, h, v0, v1, rx, w1, w2))
+        ok = not diffs
+        if not ok:
+            # is the rest removed somewhere else before this stage reads the buffer?
+            cfg = cfg_of(fi)
+            for x in walk_no_nested(fi.node):
+                if ts.is_buf(x, fi) and ts._buffer_effect_node(x) == "shift":
+                    sn = cfg.node_of(x)
+                    if sn is not None and sn is not st["node"] and st["node"].id in cfg.reach([sn]):
+                        raise AnalysisError(f"{fi.loc(x)}: the buffer is modified on a path to `{norm(st['arg'])}`: whether that removes the rest of a line break is not modelled")
+        r0, (rx0, w10, w20) = sorted(left.items())[0]
+        fact = (f"both {w10!r} and {w20!r} are complete matches of `{rx0}` (boundary {pats.boundary(0)!r}): when a chunk ends between them the match ends early and {sorted(left)} arrive(s) in front of the part headers; "
+                f"`{norm(st['expr'])}` ({BLOCK} = the buffer up to the blank line) feeds {sorted(st['ctors'])}; evaluated on {n} (rest, header block) pairs: ")
+        if diffs:
+            r, h, v0, v1, _, _, _ = diffs[0]
+            fact += (f"for the block {h!r} it gives {v0!r}, with the rest {r!r} in front {v1!r}: the headers of the part depend on where the delimiter line was cut "
+                     f"(the stage that follows a delimiter has to skip empty lines, because the delimiter pattern accepts a line break that is not complete)")
+        else:
+            fact += "the same value with and without the rest in front"
+        ctx.ob("R1.11", f"{fi.qualname}: the rest of a line break left in front of the part headers does not show in the headers", ok, fact, fi, st["arg"],
+               f"line-break rest in front of the part headers ({'/'.join(sorted(st['ctors']))})")
+
+
+# ---------------------------------------------------------------------------
 
 
 def run(ctx: Ctx) -> None:
@@ -1713,3 +1972,4 @@ def run(ctx: Ctx) -> None:
     rules_feed(ctx, roles)
     sp = rules_splitter(ctx, roles, pats, folder)
     rules_skip_once(ctx, roles, sp)
+    rules_residue(ctx, roles, pats, folder)
